@@ -105,7 +105,7 @@ Print Assumptions one_winner.
    conflict and changes nothing *)
 Theorem put_one_winner_step : forall fixed slots g own run det v s g' r own',
   mstep fixed slots g own (Put run det v) s = (g', Done r own') ->
-  (r = OkU -> has_key g run det = false /\ has_key g' run det = true) /\
+  (r = OkU -> has_key g run det = false /\ memN run (runs g) = true /\ has_key g' run det = true) /\
   (has_key g run det = true -> lookup run (colls g) = Some CRun -> r = Err EConflict /\ g' = g).
 Proof. exact put_one_winner_step_p. Qed.
 Print Assumptions put_one_winner_step.
@@ -141,6 +141,16 @@ Theorem register_run_halfway_refuted :
   exists sched, map outs (snd (run_all true [] g_empty p_regrm sched)) = [[Err ESqlIntegrity]; [OkU]].
 Proof. exact regrun_halfway_refuted_p. Qed.
 Print Assumptions register_run_halfway_refuted.
+
+(* ... and in between another client's registerRun answers False ("already there") and its put into that run is refused
+   with a conflict (the run row the dataset row refers to does not exist yet); the three serial orders never refuse it so *)
+Theorem register_run_halfway_put_refuted :
+  (exists sched, let '(g, cs) := run_all true [] g_empty p_reg_put sched in
+                 map outs cs = [[OkB true]; [OkB false; Err EConflict]] /\ dsets g = []) /\
+  (forall order, In order [[0; 0; 0]; [1; 0; 0]; [1; 1; 0]]%nat ->
+     ~ In (Err EConflict) (concat (map outs (snd (run_serial true [] g_empty p_reg_put order))))).
+Proof. exact regrun_halfway_put_refuted_p. Qed.
+Print Assumptions register_run_halfway_put_refuted.
 
 (* removeRuns reads the datasets of the run before its block; a put in between makes the block fail, nothing is lost *)
 Theorem remove_runs_put_race_refuted :
